@@ -490,6 +490,35 @@ func c20Draw(r *fw.Rand, tokBase int) *c20Model {
 		}
 		m.families = append(m.families, f)
 	}
+	// a child can be the child of two families (born into one, adopted into or
+	// also recorded under another): every family it is listed in is checked on
+	// its own. Only taken when the gaps to the children already there stay
+	// clear of the bands around the sibling thresholds.
+	if len(m.families) >= 2 && r.Chance(1, 3) {
+		from, to := m.families[r.Intn(len(m.families)-1)], m.families[len(m.families)-1]
+		if from != to && len(from.kids) > 0 {
+			k := from.kids[r.Intn(len(from.kids))]
+			ok := k != to.husb && k != to.wife
+			for _, o := range to.kids {
+				if o == k {
+					ok = false
+					continue
+				}
+				if m.people[k].birth != c20None && m.people[o].birth != c20None {
+					g := m.people[k].birth - m.people[o].birth
+					if g < 0 {
+						g = -g
+					}
+					if g == 2 || g == 3 || (g >= 269 && g <= 279) {
+						ok = false
+					}
+				}
+			}
+			if ok {
+				to.kids = append(to.kids, k)
+			}
+		}
+	}
 	if r.Chance(1, 3) { // an unconnected person
 		u := newP(sexes("F")...)
 		m.people[u].birth = ref.DayNumber(r.Range(1700, 1900), r.Range(1, 12), r.Range(1, 28))
@@ -540,7 +569,7 @@ func init() {
 		},
 		Assumptions: []string{
 			"clear-cut data only: +/- 4 days around the year-based thresholds, sibling gaps of 2-3 and 269-279 days, marriages before a spouse's birth and spouses whose SEX lines contradict each other are never generated (a spouse may carry the same SEX line several times); a date phrase in parentheses counts as unparsable (IsValid() is false for it by definition)",
-			"every child has one BIRT and belongs to one family; age is counted from BIRT (no baptism-only people among spouses)",
+			"every child has one BIRT (a child may be listed in two families); age is counted from BIRT (no baptism-only people among spouses)",
 		},
 	})
 }
